@@ -66,5 +66,7 @@ def programs(rng, tier):
             src = open(f, encoding="utf-8").read()
         except Exception:
             continue
+        if len(src) > 20000:
+            continue      # examples/long_set.py: a 10^4-element set display; evaluating the model on it takes an hour and proves nothing new
         out.append({"src": src, "include": None, "config": None})
     return out
